@@ -472,6 +472,33 @@ def jsonable(c):
     return json.loads(json.dumps(c, default=str))
 
 
+def pregen(ctx):
+    """tie (T): re-translate set_seed / rand_generator / noise (utils/random.py), get_seed / set_seed (datasets/_seed.py) and the seed table
+    of Reservoir.__init__ (+ reservoirs/base.py initialize / initialize_feedback) of the tree under test into coq/gen/Gen_seed.v
+    (translator vlib/py2coq_seed.py, vocabulary coq/base/SeedPrelude.v); proofs/Gen_seed_eq.v then proves them equal to model/Prov.v.
+    Returns None or the error text; on rejection a stub that does not compile replaces the file (never a stale model)."""
+    import os
+    import traceback
+    from vlib import py2coq_seed
+    path = os.path.join(core.COQ, "gen", "Gen_seed.v")
+    os.makedirs(os.path.dirname(path), exist_ok=True)
+    err = None
+    try:
+        text = py2coq_seed.emit(core.REPO)
+    except py2coq_seed.Reject as ex:
+        err = "translation rejected: %s" % ex
+    except Exception:
+        err = "translator exception: " + traceback.format_exc()[-1500:]
+    if err is not None:
+        text = "(* GENERATED: translation of the seed plumbing FAILED -- %s *)\nDefinition translation_failed : True := 0.\n" % (
+            err.replace("*)", "* )").replace("(*", "( *"))
+    old = open(path).read() if os.path.exists(path) else None
+    if old != text:               # keep the mtime (and the compiled cone) when nothing changed
+        with open(path, "w") as f:
+            f.write(text)
+    return None if err is None else "unit seed (set_seed, rand_generator, noise, datasets seed, Reservoir seed table): %s" % err
+
+
 def correspondence(ctx):
     rng = ctx.rng("corr")
     n = ctx.n(80, 800)
@@ -772,6 +799,34 @@ def _sklearn_shared_hypers_probe(s1, s2):
     return None
 
 
+def _esn_noise_schedule_probe():
+    """a NOISY ESN with an integer seed fitted on three sequences: the fitted readout and every later noisy run are the same function of the seed whether the
+    sequences are processed sequentially (workers=1) or by two threads, and two identical sequential fits give identical bytes"""
+    rpy()
+    from reservoirpy.nodes import ESN
+    rs = np.random.RandomState(21)
+    X = [rs.uniform(-1, 1, (n, 2)) for n in (12, 9, 14)]
+    Y = [rs.uniform(-1, 1, (n, 1)) for n in (12, 9, 14)]
+    sc = {"check": "esn-noise-schedule"}
+
+    def mk(k, **kw):
+        return ESN(units=8, ridge=1e-2, seed=2024, noise_rc=0.05, noise_in=0.02, rc_connectivity=1.0, input_connectivity=1.0, name="ens_%s" % k, **kw)
+    try:
+        a, b, c = mk("a", workers=1), mk("b", workers=1), mk("c", workers=2, backend="threading")
+        for e in (a, b, c):
+            e.fit(X, Y)
+        ra, rb, rc = a.run(X[0]), b.run(X[0]), c.run(X[0])
+    except Exception as ex:  # noqa: BLE001
+        return _viol("esn-noise-schedule:exception", "noisy seeded ESN fit / run raises %r" % (ex,), sc)
+    if not (np.array_equal(a.readout.Wout, b.readout.Wout) and np.array_equal(ra, rb)):
+        return _viol("esn-noise:not-a-function-of-seed", "two identical sequential fits of a noisy ESN with the same integer seed differ", sc)
+    if not (np.allclose(a.readout.Wout, c.readout.Wout, rtol=1e-8, atol=1e-10) and np.allclose(ra, rc, rtol=1e-8, atol=1e-10)):
+        return _viol("esn-noise:schedule-dependent", "a noisy ESN with seed 2024 fitted on three sequences gives another readout / later noisy run when the sequences are processed by one "
+                     "worker than by two threads (max |dWout| %.3g): the noise is not the same function of the seed in both schedules"
+                     % float(np.max(np.abs(a.readout.Wout - c.readout.Wout))), sc)
+    return None
+
+
 def oracle(ctx, scale=1):
     rng = ctx.rng("oracle")
     rpy()
@@ -788,6 +843,10 @@ def oracle(ctx, scale=1):
             ev += 1
             if v:
                 viol.append(v)
+        v = _esn_noise_schedule_probe()
+        ev += 1
+        if v:
+            viol.append(v)
         # (b) fixed-shape checks
         for rep in range(ctx.n(6, 40) * scale):
             s = rng.choice(SEEDS)
@@ -999,6 +1058,9 @@ def replay(payload):
     sc = payload.get("scenario") or {}
     if "ops" in sc:
         v = _judge_history(sc)
+        return {"violates": bool(v), "detail": v}
+    if sc.get("check") == "esn-noise-schedule":
+        v = _esn_noise_schedule_probe()
         return {"violates": bool(v), "detail": v}
     if sc.get("check") == "name-counter":
         v = _name_counter_probe()
